@@ -17,7 +17,9 @@ Inductive case :=
        (hs : list (list byte))                     (* transcript messages before the Finished messages *)
        (c2s s2c : list (list byte))                (* protected wire records, client->server / server->client *)
        (wr_c wr_s : list byte)                     (* application bytes written by client / server *)
-       (ivs_c ivs_s : list (list byte)).           (* CBC: predicted explicit IVs of the non-handshake records *)
+       (ivs_c ivs_s : list (list byte))            (* CBC: predicted explicit IVs of the non-handshake records *)
+       (base : N).                                 (* datagram stack: 0, or the record sequence number both ends were moved to
+                                                      after their Finished (hook VerifSetWriteSeq), to reach numbers above 2^32 *)
 
 Definition hs_hdr_len (f : hform) : nat := match f with HT => 4 | HD => 12 end%nat.
 Definition hello_random (f : hform) (m : list byte) : list byte := slice (hs_hdr_len f + 2) 32 m.
@@ -56,6 +58,14 @@ Fixpoint seqs_ok (f : hform) (i : N) (os : list opened) : bool :=
   | o :: t => N.eqb (o_seq o) i && (match f with HT => true | HD => N.eqb (o_epoch o) 1 end) && seqs_ok f (i + 1) t
   end.
 
+(* consecutive from 0; with a base, the first record (Finished) is number 0 and the rest count from base *)
+Definition seqs_from (f : hform) (base : N) (os : list opened) : bool :=
+  if N.eqb base 0 then seqs_ok f 0 os
+  else match os with
+       | [] => true
+       | o :: t => seqs_ok f 0 [o] && seqs_ok f base t
+       end.
+
 Definition app_data (os : list opened) : list byte :=
   flat_map (fun o => if N.eqb (o_typ o) 23 then o_pt o else []) os.
 
@@ -83,7 +93,7 @@ Definition first_failing {A} (l : list (option A)) (recs : list (list byte)) : l
 
 Definition code (c : case) : N :=
   match c with
-  | Conn f suite resumed ms master_c master_c2 master_s hs c2s s2c wr_c wr_s ivs_c ivs_s =>
+  | Conn f suite resumed ms master_c master_c2 master_s hs c2s s2c wr_c wr_s ivs_c ivs_s base =>
     match mode_of_suite suite with
     | None => 20
     | Some m =>
@@ -114,7 +124,7 @@ Definition code (c : case) : N :=
       | None, _ => if opens_without_seq m f (client_write ks) (first_failing oc c2s) then 8 else 2
       | _, None => if opens_without_seq m f (server_write ks) (first_failing os s2c) then 8 else 3
       | Some oc, Some os =>
-        if negb (seqs_ok f 0 oc && seqs_ok f 0 os) then 8
+        if negb (seqs_from f base oc && seqs_from f base os) then 8
         else if negb (forallb (fun o => N.eqb (o_ver o) 0x0101) (oc ++ os) && types_ok oc && types_ok os) then 11
         else
         (* ---- Finished values from the SM3 transcript *)
